@@ -74,7 +74,9 @@ Get(i) ==
 Remove(w, h) ==
   /\ made /\ w + h <= Len(args)
   /\ args' = RemoveAt(args, w, h) /\ UNCHANGED made
-  /\ last' = [a |-> "Remove", arg |-> [w |-> w, h |-> h], cls |-> RemoveCls(h), exp |-> Proj(args')]
+  /\ last' = [a |-> "Remove", arg |-> [w |-> w, h |-> h], cls |-> RemoveCls(h),
+              \* remove(where) is remove(where, 1): the driver performs the one-argument call on a copy
+              exp |-> (IF h = 1 THEN [items_default |-> args'] ELSE <<>>) @@ Proj(args')]
 
 \* parseAndRemove(list) with the parser cnt
 ParseAndRemove(cnt) ==
